@@ -1,40 +1,51 @@
 #!/usr/bin/env python3
-"""seedmatrix.py [--all-props] [Cxx ...] -- run the check of the broken property (or of all properties) against every
-confirmed seeded change (scratch copy of /repo + patch, VERIF_REPO); writes seeded/matrix.json"""
+"""seedmatrix.py [--all-props] [seed-id ...] -- run the check of the broken property (or of all properties) against every
+seeded change under seeded/<id>/ (scratch copy of /repo + patch.diff, VERIF_REPO); writes seeded/matrix.json and
+records the outcome in each seeded/<id>/meta.json (checks_run, caught_by, undecided_in)."""
 import json, os, shutil, subprocess, sys, tempfile
 from concurrent.futures import ThreadPoolExecutor
 V = os.path.dirname(os.path.dirname(os.path.abspath(__file__)))
-INC = os.path.join(V, "seeded", "_incoming")
+SD = os.path.join(V, "seeded")
 allp = "--all-props" in sys.argv
-ids = [a for a in sys.argv[1:] if not a.startswith("--")] or sorted(x for x in os.listdir(INC) if x.startswith("C"))
+ids = [a for a in sys.argv[1:] if not a.startswith("--")] or sorted(x for x in os.listdir(SD) if os.path.exists(os.path.join(SD, x, "patch.diff")))
 PROPS = ["C%02d" % i for i in range(1, 21)]
-def run(job):
-    pid, n = job
-    d = os.path.join(INC, pid)
-    cf = os.path.join(d, "confirm%d.json" % n)
-    if not os.path.exists(cf) or json.load(open(cf)).get("status") != "CONFIRMED":
-        return pid, n, None
+def run(sid):
+    d = os.path.join(SD, sid)
+    meta = json.load(open(os.path.join(d, "meta.json")))
+    pid = meta["breaks_property"]
     t = tempfile.mkdtemp(prefix="verif-sm.")
     out = {}
     try:
         for sub in ("src", "include"):
             shutil.copytree(os.path.join("/repo", sub), os.path.join(t, sub))
-        subprocess.run(["patch", "-p1", "-s", "--fuzz=3", "-d", t, "-i", os.path.join(d, "patch%d.diff" % n)], capture_output=True)
+        r = subprocess.run(["patch", "-p1", "-s", "--fuzz=3", "-d", t, "-i", os.path.join(d, "patch.diff")], capture_output=True, text=True)
+        if r.returncode != 0:
+            return sid, {"error": "patch does not apply to the current /repo: " + (r.stdout + r.stderr)[-200:]}
         for prop in (PROPS if allp else [pid]):
-            r = subprocess.run([os.path.join(V, "check"), prop], env=dict(os.environ, VERIF_REPO=t, VERIF_JOBS="6"), capture_output=True, text=True)
+            r = subprocess.run([os.path.join(V, "check"), prop], env=dict(os.environ, VERIF_REPO=t, VERIF_JOBS=os.environ.get("VERIF_JOBS", "6")), capture_output=True, text=True)
             viol = [l for l in r.stdout.splitlines() if l.startswith("VIOLATION")]
             und = [l for l in r.stdout.splitlines() if l.startswith("UNDECIDED")]
-            out[prop] = {"rc": r.returncode, "violations": [v.split("obligation=")[-1][:120] for v in viol][:6], "undecided": [u[:200] for u in und][:3]}
+            out[prop] = {"rc": r.returncode, "violations": [v.split("obligation=")[-1][:140] for v in viol][:6],
+                         "n_violations": len(viol), "replayed_natively": sum(1 for v in viol if not v.rstrip().endswith("no-failing-input-found")),
+                         "undecided": [u[:200] for u in und][:3]}
     finally:
         shutil.rmtree(t, ignore_errors=True)
-    return pid, n, out
-jobs = [(i, n) for i in ids for n in (1, 2)]
+    return sid, out
 res = {}
-mp = os.path.join(V, "seeded", "matrix.json")
+mp = os.path.join(SD, "matrix.json")
 if os.path.exists(mp): res = json.load(open(mp))
-with ThreadPoolExecutor(max_workers=3) as ex:
-    for pid, n, out in ex.map(run, jobs):
-        if out is None: continue
-        res.setdefault("%s/%d" % (pid, n), {}).update(out)
-        print(pid, n, {k: (v["rc"], v["violations"][:2]) for k, v in out.items()}, flush=True)
-        json.dump(res, open(mp, "w"), indent=1)
+with ThreadPoolExecutor(max_workers=int(os.environ.get("SEED_PAR", "3"))) as ex:
+    for sid, out in ex.map(run, ids):
+        res.setdefault(sid, {}).update(out)
+        print(sid, {k: ((v["rc"], v["violations"][:2]) if isinstance(v, dict) else v) for k, v in out.items()}, flush=True)
+        json.dump(res, open(mp, "w"), indent=1, sort_keys=True)
+        mpth = os.path.join(SD, sid, "meta.json")
+        meta = json.load(open(mpth))
+        cr = meta.get("checks_run", {}) if isinstance(meta.get("checks_run"), dict) else {}
+        for p, r in out.items():
+            if isinstance(r, dict):
+                cr[p] = {"exit": r["rc"], "violations": r["violations"], "replayed_natively": r["replayed_natively"], "undecided": r["undecided"]}
+        meta["checks_run"] = cr
+        meta["caught_by"] = sorted(p for p, r in cr.items() if r.get("exit") == 1)
+        meta["undecided_in"] = sorted(p for p, r in cr.items() if r.get("exit") == 2)
+        json.dump(meta, open(mpth, "w"), indent=1)
